@@ -103,4 +103,8 @@ theorem model_rot_reconstruction {n p k : ℕ} (comps0 : XM.Mat p k 𝕜) (expva
 theorem model_rot_expvar_nonneg {p k : ℕ} (L : XM.Mat p k 𝕜) (j : Fin k) : 0 ≤ XM.rotExpvar (ρ := ℝ) L j :=
   XP.RotM.rotExpvar_nonneg L j
 
+/-- source obligation: rotated cross-set modes are ordered by their squared covariance `(norm1 · norm2)²` -/
+theorem src_cross_rotator_sort_key :
+    Gen.cpccaRotatorSortKey = ["argsort_dask(squared_covariance, 'mode')[::-1]", "explained_covariance ** 2", "norm1_rot * norm2_rot"] := by decide
+
 end C11
